@@ -33,7 +33,14 @@ def gen(rng, count, tier):
             elif r < 0.4 and sm != 'threading':
                 j['expect'] = 'timeout'
                 j['timeout'] = 0.4
-                beh.append({'at': key, 'do': 'block', 's': 30})
+                if rng.random() < 0.4:
+                    # the task would finish on its own shortly after the deadline, and the error callback is slow: the interrupted
+                    # task must not deliver a second result in the meantime
+                    beh.append({'at': key, 'do': 'sleep', 's': 1.0})
+                    j['ecb_sleep'] = 1.2
+                    j['cbs'] = [True, True]
+                else:
+                    beh.append({'at': key, 'do': 'block', 's': 30})
             else:
                 j['expect'] = 'ok'
                 if rng.random() < 0.3:
